@@ -522,30 +522,59 @@ Definition st_load (k : skind) (hooks : bool) (store : list (string * json)) (no
 
 (** ** FindRules (candidate rule bodies for an event) *)
 
-(** RuleFromMap on the template family used by the harness: a rule needs
-    exactly one of when / schedule and at least one action. *)
+(** RuleFromMap: json.Unmarshal of the map into the Rule struct (typed
+    fields; unknown members are ignored; null is accepted everywhere) and the
+    checks of RuleFromJSON.  The condition's ParseQuery is checked separately
+    (Events.condition_ok: it needs the script table). *)
+Definition j_is_str (j : json) : bool := match j with JStr _ => true | _ => false end.
+Definition j_is_bool (j : json) : bool := match j with JBool _ => true | _ => false end.
+Definition j_is_num (j : json) : bool := match j with JNum _ => true | _ => false end.
+Definition j_is_obj (j : json) : bool := match j with JObj _ => true | _ => false end.
+
+(** a member is absent, null, or satisfies [ok] *)
+Definition field_ok (r : json) (k : string) (ok : json -> bool) : bool :=
+  match jget k r with None | Some JNull => true | Some v => ok v end.
+
+Definition field_present (r : json) (k : string) : bool :=
+  match jget k r with None | Some JNull => false | Some _ => true end.
+
+(** CleanAction.UnmarshalJSON: an object whose code is a string, an array of
+    strings or a map (GetCode), endpoint a string, subvars a bool, opts a map *)
+Definition action_json_ok (a : json) : bool :=
+  match a with
+  | JObj _ =>
+      (match jget "code" a with
+       | Some (JStr _) => true
+       | Some (JArr l) => forallb j_is_str l
+       | Some (JObj _) => true
+       | _ => false
+       end) &&
+      field_ok a "endpoint" j_is_str && field_ok a "subvars" j_is_bool && field_ok a "opts" j_is_obj
+  | _ => false
+  end.
+
 Definition rule_from_map (r : json) : outcome json :=
-  let has k := match jget k r with Some _ => true | None => false end in
-  let when_ok := match jget "when" r with
-                 | None => true
-                 | Some (JObj w) => match alookup "pattern" w with
-                                    | Some (JObj _) | None => true
-                                    | Some JNull => true
-                                    | Some _ => false
-                                    end
-                 | Some JNull => true
-                 | Some _ => false
-                 end in
-  let when_present := match jget "when" r with Some JNull | None => false | Some _ => true end in
+  let types_ok :=
+    field_ok r "id" j_is_str &&
+    field_ok r "when" (fun w => j_is_obj w && field_ok w "pattern" j_is_obj &&
+                                field_ok w "locations" (fun l => match l with JArr xs => forallb j_is_str xs | _ => false end)) &&
+    field_ok r "schedule" j_is_str &&
+    field_ok r "condition" j_is_obj &&
+    field_ok r "actions" (fun l => match l with JArr xs => forallb action_json_ok xs | _ => false end) &&
+    field_ok r "action" action_json_ok &&
+    field_ok r "policies" (fun p => j_is_obj p && field_ok p "retryFromCondition" j_is_bool &&
+                                    field_ok p "verifyEnabled" j_is_bool && field_ok p "serialActions" j_is_bool) &&
+    field_ok r "once" j_is_bool && field_ok r "props" j_is_obj && field_ok r "expires" j_is_num in
+  let when_present := field_present r "when" in
   let sched := match jget "schedule" r with Some (JStr s) => negb (String.eqb s "") | _ => false end in
-  let sched_ok := match jget "schedule" r with Some (JStr _) | Some JNull | None => true | Some _ => false end in
+  let has_action := field_present r "action" in
+  let has_actions := field_present r "actions" in   (* a non-nil slice, possibly empty *)
   let nactions := match jget "actions" r with Some (JArr l) => length l | _ => O end in
-  let expires_ok := match jget "expires" r with Some (JNum _) | Some JNull | None => true | Some _ => false end in
-  if negb (when_ok && sched_ok && expires_ok) then Err "syntax"
+  if negb types_ok then Err "syntax"
   else if negb when_present && negb sched then Err "syntax"
   else if when_present && sched then Err "syntax"
-  else if has "action" && negb (Nat.eqb nactions 0) then Err "syntax"
-  else if negb (has "action") && Nat.eqb nactions 0 then Err "syntax"
+  else if has_action && has_actions then Err "syntax"
+  else if negb has_action && Nat.eqb nactions 0 then Err "syntax"
   else Ok r.
 
 (** The pattern FindRules.Do re-matches: Rule.When.Pattern (the "pattern"
